@@ -3,7 +3,7 @@ prop(
     quick=[("native", 4), ("miri", 1)],
     thorough=[("native", 16), ("asan", 4), ("miri", 2)],
     level="exploration",
-    min_evals={"quick": 5_000_000, "thorough": 10_000_000_000},
+    min_evals={"quick": 6_500_000, "thorough": 10_000_000_000},
     rule=(
         "pairs (a, a+d): thorough enumerates every d in 0..2^32 from 7 bases (exhaustive for those bases), "
         "quick every d within 2^16 of 0, 2^31 and 2^32 from 8 bases plus a prime stride over the whole range; every pair is judged by the "
@@ -32,9 +32,39 @@ prop(
         "of each End of Data, the first Serial Query carries the state given, the next one the serial of the previous End of Data. "
         "(3) every public reader of a PDU holding a serial (Payload::read, EndOfData::read_payload, EndOfDataV0/V1 read / try_read, "
         "SerialNotify try_read / read_payload, Header + SerialQueryPayload) fed in the same patterns. "
+        "Source advancing while a connection is open (c16_adv.rs): one case = one connection of the real Server::run over the scripted "
+        "socket and a PayloadSource of the harness that keeps the list of serials it has been at (same session), announces one origin per step, "
+        "may have forgotten old states, looks states up by plain equality and logs every diff call. The router synchronises (Reset Query / "
+        "Serial Query for the current state / Serial Query from an older state), then for each step of the plan the source advances by n and "
+        "NotifySender::notify() is fired at the settled, idle connection; depending on the plan the router then sends a Serial Query with the "
+        "serial it holds (after each step / at the end / never / every second step). Plans: 14 bases (around 0xFFFFFFFF, 0, 2^31, plain, "
+        "octet-asymmetric) x 12 step lists (+1, +0x20, +(2^31-1), several steps, steps of 0, sums reaching 2^31) x 3 synchronisations x 4 query "
+        "patterns x history kept / forgotten, versions cycling (all three in thorough), plus 600 random plans (40 k in thorough); one evaluation "
+        "= the synchronisation or one step. Oracle: a control (0x1000 -> 0x1001) per version shows that this server sends a Serial Notify for a "
+        "plain advance; then every step whose new serial is 1..2^31-1 ahead both of the serial last sent in End of Data and of the serial last "
+        "announced must yield a Serial Notify too (server_advance_serial_notify_demanded; more than one is recorded only), every Serial Notify carries session and the "
+        "new serial big-endian, the query with the held serial is answered as the source offers for exactly that state (diff with one record per "
+        "step since and End of Data with the new serial, or Cache Reset and then the full set), PayloadSource::diff was called with exactly the "
+        "(session, serial) sent, every state handed to Socket::update is one that went into an End of Data on the connection. Steps of 0 and steps leaving the router >= 2^31 behind are "
+        "recorded (server_advance_notified[..] / serial_notify_seen[..] per relation of old and new serial: plain, across-the-wrap, across-2^31, "
+        "same-serial, distance-2^31, ...); an advance by exactly 2^31 must only come out the same from a base and from base + 2^31. "
+        "PDU API (c16_api.rs a): every public constructor, accessor, reader, writer and AsMut buffer of rtr::pdu / rtr::state that moves a "
+        "session id or serial between a value and octets - listed by hand in the module header, 54 items, "
+        "max:pdu_api_items_exercised - on 22 octet-asymmetric serials x 10 sessions and random values, against the octets the independent "
+        "encoder of c07_io prescribes and back (readers must give back the octets read). "
+        "Idle client (c16_api.rs b): Client::step against a scripted cache on a duplex pipe under the paused tokio clock: the client holds S, "
+        "the cache sends Serial Notify N (when idle / in one write with End of Data / after a tenth of the refresh interval; first exchange by "
+        "reset or serial query; versions 0-2); the virtual time until the next query is classified (at-once / before-refresh / sat-out-until-refresh "
+        "/ no-query, counters client_idle_reaction[difference class][class]). Groups of pairs with one difference N - S: a plain pair first, then "
+        "pairs where N is S with octets reversed / halves swapped / two octets swapped (256 and 65536, 0xdeadbeef and 0xefbeadde, random), both "
+        "shifted by 1 and by 2^24, and for the differences 1, 2, 0x20, 0x100, 0xFF00, 2^31-1, 2^31, 2^31+1, -1, -256, 0 pairs sitting at the wrap, "
+        "at 2^31 and at random places: a member whose reaction class differs from the plain pair's is a violation; the query, when it comes, "
+        "must carry S and the state after the exchange must be N. One evaluation = one scenario. "
         "A case signature is (operation, base, difference region 0 / <2^31 / =2^31 / >2^31), (add, wrap?, n class), or for the transport part "
         "(server, version, schedule class, where the notification met the reader, serial class) / (client, version, start, constructor, "
-        "payload count, delivery, serial class); distinct_nontrivial counts those classes, evaluations counts table rows, single oracle "
+        "payload count, delivery, serial class) / (server-advance, version, synchronisation, step classes, relations crossed, query pattern, "
+        "history, base class) / (pdu-api item) / (client-idle, version, difference class, relation of the pair, delivery, first query); "
+        "distinct_nontrivial counts those classes, evaluations counts table rows, single oracle "
         "comparisons and schedule / step runs."
     ),
     assumptions=[
@@ -45,6 +75,10 @@ prop(
         "Default / State::new / Arbitrary may hand out any value; it is used as a further base, its being 0 is recorded only",
         "server: the constant source of c08_io answers a Serial Query with its one-record diff iff diff() is called with exactly (session, X); the verdict is read from the server's output, runs that do not settle are not judged (C08 watches liveness)",
         "client: a step that does not complete over a valid transcript is recorded (client_steps_not_completed), not judged - only the state a completed step leaves behind is",
+        "server-advance: that a notification at an idle connection yields a Serial Notify at all is C08's subject; C16 only demands that advances RFC 1982 orders the same way are treated the same way as the control advance 0x1000 -> 0x1001 (if the control yields none, missing notifications are not judged and a note is pushed). Notifications without an advance, advances that leave the router 2^31 or more behind and the distance 2^31 itself are recorded, the latter only compared between a base and base + 2^31",
+        "server-advance: the source model never returns to a serial it has been at and keeps one session; it is coherent (never reports an older serial than it handed out)",
+        "client-idle: whether a client reacts to a Serial Notify at once, later or not at all is not judged (a client ignoring a notification for the serial it already holds, or all notifications, is legitimate); only that the reaction class is the same for all pairs (held, announced) with the same difference modulo 2^32. Virtual time comes from tokio's paused clock, never from the wall clock",
+        "pdu-api: the item list was written by hand from src/rtr/pdu.rs and state.rs as they stand; SerialNotify and SerialQuery have no public serial accessor in this tree - an accessor added later is not covered until it is added to the list (its use inside the client / server is what the behavioural workloads see)",
     ],
     level_text=(
         "Runtime oracle (RFC 1982 table written from the statement) over every difference 0..2^32 from seven bases in the thorough tier "
@@ -54,7 +88,7 @@ prop(
         "notifications in the gaps. "
         "Exhaustive enumeration of the one-dimensional difference space is the natural level for a property that depends on the difference only."
     ),
-    level_note="Trusts the harness' own 20-line table and Rust integer arithmetic; bases other than the seven enumerated are sampled; the transport schedules are enumerated for single and double cuts, not for every interleaving.",
-    technique="runtime oracle over exhaustive difference enumeration for every comparison entry point + real server / client over scripted fragmenting transports + Miri/ASan",
+    level_note="Trusts the harness' own 20-line table and Rust integer arithmetic; bases other than the seven enumerated are sampled; the transport schedules are enumerated for single and double cuts, not for every interleaving; source histories are plans of up to 5 advances on one connection with notifications at quiescent points only (notifications racing with queries are C08's and c16_wire's part); the idle client is compared between pairs of equal difference, so a deviation that is the same for every base of a difference is not this property's to report; the PDU API list is hand-written.",
+    technique="runtime oracle over exhaustive difference enumeration for every comparison entry point + real server / client over scripted fragmenting transports, an advancing source model and a paused clock + hand-enumerated PDU API against an independent encoder + Miri/ASan",
     design_ref="DESIGN.md §4 C16",
 )
